@@ -240,6 +240,7 @@ func scenariosFor(tier string) []vrt.Scenario {
 		s.Name += "/policy=delay"
 		out = append(out, s)
 	}
+	out = append(out, scenario(cfg{interval: 100 * ms, length: 250*ms + ms, profile: []int{2, 0, 1, 3}}).WithPlainPoints(b))
 	for _, iv := range intervals {
 		lengths := []time.Duration{iv / 2, iv, iv*5/2 + ms, 3*iv - ms}
 		if tier == "quick" {
